@@ -405,6 +405,14 @@ func runReplay(r *OblResult, cs *Contracts) *ReplayOutcome {
 		return out
 	}
 	if plan.Kind == "safety" {
+		if o.Kind == "div0" || o.Kind == "domain" {
+			// a real division by zero / out-of-domain call does not panic: it shows as NaN or Inf
+			if strings.Contains(out.TestOut[i:j], "NaN") || strings.Contains(out.TestOut[i:j], "Inf") {
+				out.Confirmed = true
+				out.Reason = "the real code produces NaN/Inf on the model's input (division by zero or out-of-domain math call)"
+				return out
+			}
+		}
 		out.Reason = "the real code did not panic on the model's input"
 		return out
 	}
